@@ -277,9 +277,12 @@ func (m *lockModel) meetsThresholds(v *mValidator) bool {
 
 // ---- genesis from the configuration ----
 
+// lockElectingPeriod is the relayer electing period of locking-world chains (C19 shortens it).
+var lockElectingPeriod = 1000 * time.Hour
+
 func (c LockCfg) spec() world.GenesisSpec {
 	spec := world.DefaultSpec(0, 2)
-	spec.RelayerParams.ElectingPeriod = 1000 * time.Hour
+	spec.RelayerParams.ElectingPeriod = lockElectingPeriod
 	spec.Tokens = nil
 	for i, t := range c.Tokens {
 		spec.Tokens = append(spec.Tokens, world.TokenSpec{Denom: tokenDenom(tokenAddrs[i]), Weight: t.Weight, Threshold: math.NewIntFromBigInt(bigOf(t.Threshold))})
